@@ -38,11 +38,16 @@ VARIABLES cs, ei,      \* case and event cursor
           lastA,       \* traj: the assignment used by the last executed step
           stopped,     \* traj: the tolerance criterion ended the iteration
           ptr,         \* traj: transform-sum logged for the previous budget
-          ikeyPrev,    \* restart: order key of the inertia reported with one restart less
-          sCounts,     \* restart: counts reported by the latest restart on its own
+          ikeyPrev,    \* restart: order key of the inertia reported with one restart less (same budget)
+          singles,     \* restart: the restarts observed on their own under the current budget, in order:
+                       \*          records [ikey, cen, counts]
+          prevSingles, \* restart: the same for the previous budget
+          prevIn,      \* restart: inertia (10^-5) reported by the r-run fits under the previous budget
+          curIn,       \* restart: the same for the current budget, so far
           used         \* deviations needed so far
 
-tvars == <<cs, ei, tt, cur, curTab, prevTab, lastA, stopped, ptr, ikeyPrev, sCounts, used>>
+rvars == <<ikeyPrev, singles, prevSingles, prevIn, curIn>>
+tvars == <<cs, ei, tt, cur, curTab, prevTab, lastA, stopped, ptr, rvars, used>>
 
 Case == Rec[cs]
 In   == Case.inp
@@ -70,7 +75,7 @@ TraceInit ==
   /\ cur = IF Rec[cs].kind = "traj" THEN LatticeAll(Rec[cs].inp.c0) ELSE <<>>
   /\ curTab = IF Rec[cs].kind = "traj" THEN Tab(Rec[cs].inp.metric, Rec[cs].inp.pts, cur, Eps) ELSE <<>>
   /\ prevTab = curTab /\ lastA = <<>> /\ stopped = FALSE
-  /\ ptr = 0 /\ ikeyPrev = <<>> /\ sCounts = <<>> /\ used = {}
+  /\ ptr = 0 /\ ikeyPrev = <<>> /\ singles = <<>> /\ prevSingles = <<>> /\ prevIn = <<>> /\ curIn = <<>> /\ used = {}
   \* the design-model variables are not used during trace validation
   /\ metric = "trace" /\ X = <<>> /\ C0 = <<>> /\ C = <<>> /\ prevC = <<>> /\ A = <<>> /\ t = 0 /\ pc = "trace"
 
@@ -178,7 +183,7 @@ TFit ==
        /\ stopped' \in {b \in BOOLEAN : IF b THEN MayStop(AA) ELSE MayCont(AA)}
   /\ prevTab' = curTab
   /\ tt' = tt + 1 /\ ptr' = Ev.trsum /\ ei' = ei + 1
-  /\ UNCHANGED <<cs, ikeyPrev, sCounts, mvars>>
+  /\ UNCHANGED <<cs, rvars, mvars>>
 
 \* a larger budget after the tolerance criterion stopped the iteration: the same model again
 TFitStay ==
@@ -189,7 +194,7 @@ TFitStay ==
        /\ Explains(Ev, curTab, tq, prevTab)
        /\ Report(Ev, curTab, lastA, prevTab)
   /\ tt' = tt + 1 /\ ptr' = Ev.trsum /\ ei' = ei + 1
-  /\ UNCHANGED <<cs, cur, curTab, prevTab, lastA, stopped, ikeyPrev, sCounts, mvars>>
+  /\ UNCHANGED <<cs, cur, curTab, prevTab, lastA, stopped, rvars, mvars>>
 
 \* diagnosis of a fit event nothing explains: names of the false clauses
 FitDiag ==
@@ -238,7 +243,7 @@ NTab(PP, c4) ==
                                      ss == FS(PP[i], c4[j])
                                  IN <<dd - ss, dd + ss>>]
          mh == KMin([j \in 1..TK |-> iv[j][2]])
-     IN [mlo |-> KMin([j \in 1..TK |-> iv[j][1]]), mhi |-> mh, adm |-> {j \in 1..TK : iv[j][1] <= mh}]]
+     IN [pt |-> PP[i], mlo |-> KMin([j \in 1..TK |-> iv[j][1]]), mhi |-> mh, adm |-> {j \in 1..TK : iv[j][1] <= mh}]]
 ObsU(v) == IF Mt = "l2" THEN 10 * v ELSE v          \* a logged value (10^-5) in the units of FD
 MU == IF Mt = "l2" THEN 10 * SlT ELSE SlT
 
@@ -271,36 +276,85 @@ KeyLe(a, b) == \/ a[1] < b[1]
                \/ a[1] = b[1] /\ a[2] < b[2]
                \/ a[1] = b[1] /\ a[2] = b[2] /\ a[3] <= b[3]
 
-\* the r-th restart on its own (a legitimate 1-run fit): everything, including the counts
+\* order of the events: for every budget b (inp.maxits[b]): single 1, multi 1, single 2, multi 2, ...
+RunsN  == In.runs
+EvB    == (ei - 1) \div (2 * RunsN) + 1
+EvR    == ((ei - 1) % (2 * RunsN)) \div 2 + 1
+EvIsSingle == (ei - 1) % 2 = 0
+Determ == In.init # "kmpara"      \* k-means|| samples its candidates under rayon's schedule: runs are not repeatable
+NextBudget == EvB > 1 /\ In.maxits[EvB] = In.maxits[EvB - 1] + 1
+
+\* one Lloyd step on logged centroids (10^-5, each within half a unit): for SOME assignment to nearest
+\* (interval arithmetic, near-ties are ties) centroids, (1 + cnt) * c' = c + sum for every centroid and
+\* coordinate -- or the same centroids again when the tolerance criterion had ended the shorter run
+\* (the search over tie choices is skipped -- clause not evaluated -- when more than TieCap combinations
+\* would have to be tried, e.g. two coinciding centroids in a large duplicate-rich dataset)
+TieCap == 4096
+RECURSIVE TieProd(_, _, _)
+TieProd(tab, i, acc) ==
+  IF i = 0 \/ acc > TieCap THEN acc ELSE TieProd(tab, i - 1, acc * Cardinality(tab[i].adm))
+StepNear(cenOld, cenNew) ==
+  \/ cenNew = cenOld
+  \/ \E nt \in {NTab(PX, cenOld)} :
+     \/ TieProd(nt, Len(nt), 1) > TieCap
+     \/ \E AA \in AsgsT(nt) :
+          \A j \in 1..TK :
+            LET cnt == Cardinality(Members(AA, j)) IN
+            \A d \in 1..TF :
+              KAbs(cenNew[j][d] * (1 + cnt) - (cenOld[j][d] + S5 * SumOf(PX, AA, j, d))) <= (1 + cnt) * SlC + SlC
+
+\* the r-th restart on its own (a legitimate 1-run fit): everything, including the counts;
+\* with one more iteration allowed it is one Lloyd step further than under the previous budget
 TSingle ==
   /\ HasEv("single") /\ Case.kind = "restart"
-  /\ ei % 2 = 1 /\ Ev.r = (ei + 1) \div 2          \* events alternate: single r, multi r, r = 1..runs
+  /\ EvIsSingle /\ Ev.r = EvR /\ Ev.b = EvB
   /\ PreR(Ev)
   /\ \E c4 \in {C4(Ev)} : \E np \in {NTab(PX, c4)} : \E nq \in {NTab(QS, c4)} :
        /\ DescribesNoCounts(Ev, np, nq)
        /\ NearCounts(Ev, np)
-  /\ sCounts' = CountsVec(Ev)
+  /\ LET old == IF EvR = 1 THEN singles ELSE prevSingles IN          \* the previous budget's restarts
+     (Determ /\ NextBudget) => StepNear(old[EvR].cen, Ev.cen)
+  /\ LET rec == [ikey |-> Ev.ikey, cen |-> Ev.cen, counts |-> CountsVec(Ev)] IN
+     IF EvR = 1 THEN /\ singles' = <<rec>> /\ prevSingles' = singles
+                     /\ prevIn' = curIn /\ curIn' = <<>> /\ ikeyPrev' = <<>>
+     ELSE /\ singles' = Append(singles, rec)
+          /\ UNCHANGED <<prevSingles, prevIn, curIn, ikeyPrev>>
   /\ ei' = ei + 1
-  /\ UNCHANGED <<cs, tt, cur, curTab, prevTab, lastA, stopped, ptr, ikeyPrev, used, mvars>>
+  /\ UNCHANGED <<cs, tt, cur, curTab, prevTab, lastA, stopped, ptr, used, mvars>>
+
+\* the r-run fit returns the best of its restarts: its inertia is the least of the inertias of restarts
+\* 1..r (each under the same budget) and its centroids are those of a restart attaining it
+BestOf(ev) ==
+  Determ =>
+    /\ Len(singles) = EvR
+    /\ \A q \in 1..EvR : KeyLe(ev.ikey, singles[q].ikey)
+    /\ \E q \in 1..EvR : singles[q].ikey = ev.ikey /\ singles[q].cen = ev.cen
+
+\* l2: the reported cost does not increase when the iteration budget grows (same seed, same n_runs)
+BudgetMonotone(ev) ==
+  (Determ /\ Mt = "l2" /\ EvB > 1 /\ In.maxits[EvB] > In.maxits[EvB - 1]) => ev.inertia <= prevIn[EvR] + SlT
 
 TMulti ==
   /\ HasEv("multi") /\ Case.kind = "restart"
-  /\ ei % 2 = 0 /\ Ev.r = ei \div 2
+  /\ ~EvIsSingle /\ Ev.r = EvR /\ Ev.b = EvB
   /\ PreR(Ev)
   /\ ikeyPrev # <<>> => KeyLe(Ev.ikey, ikeyPrev)       \* more restarts never report a higher inertia
+  /\ BestOf(Ev)
+  /\ BudgetMonotone(Ev)
   /\ \E c4 \in {C4(Ev)} : \E np \in {NTab(PX, c4)} : \E nq \in {NTab(QS, c4)} :
        /\ DescribesNoCounts(Ev, np, nq)
        /\ \/ /\ NearCounts(Ev, np)
              /\ used' = used
           \/ /\ "counts_from_last_restart" \in Devs
              /\ ~NearCounts(Ev, np)
-             /\ Ev.r > 1 /\ In.init # "kmpara"
+             /\ Ev.r > 1 /\ Determ
              /\ CountsWellFormed(Ev)
-             /\ CountsVec(Ev) = sCounts
+             /\ CountsVec(Ev) = singles[EvR].counts
              /\ used' = used \cup {"counts_from_last_restart"}
   /\ ikeyPrev' = Ev.ikey
+  /\ curIn' = Append(curIn, Ev.inertia)
   /\ ei' = ei + 1
-  /\ UNCHANGED <<cs, tt, cur, curTab, prevTab, lastA, stopped, ptr, sCounts, mvars>>
+  /\ UNCHANGED <<cs, tt, cur, curTab, prevTab, lastA, stopped, ptr, singles, prevSingles, prevIn, mvars>>
 
 RestartDiag ==
   IF ~ShapeOk(Ev) THEN <<"shape/finite">>
@@ -309,24 +363,31 @@ RestartDiag ==
            np == NTab(PX, c4)
            nq == NTab(QS, c4)
        IN
-       <<{nm \in {"labels", "query-labels", "transform", "query-transform", "inertia", "counts", "inertia-order"} :
+       <<{nm \in {"labels", "query-labels", "transform", "query-transform", "inertia", "counts", "inertia-order",
+                   "event-order", "best-of-restarts", "budget-monotone", "lloyd-step"} :
             CASE nm = "labels" -> ~NearLabels(Ev.lab, np)
               [] nm = "query-labels" -> ~(NearLabels(Ev.qlab, nq) /\ NearLabels(Ev.qlab1, nq))
               [] nm = "transform" -> ~NearTrans(Ev.tr, np)
               [] nm = "query-transform" -> ~NearTrans(Ev.qtr, nq)
               [] nm = "inertia" -> ~NearInertia(Ev, np)
               [] nm = "counts" -> ~NearCounts(Ev, np)
-              [] nm = "inertia-order" -> Ev.ev = "multi" /\ ikeyPrev # <<>> /\ ~KeyLe(Ev.ikey, ikeyPrev)}>>
+              [] nm = "inertia-order" -> Ev.ev = "multi" /\ ikeyPrev # <<>> /\ ~KeyLe(Ev.ikey, ikeyPrev)
+              [] nm = "event-order" -> ~(Ev.r = EvR /\ Ev.b = EvB /\ (EvIsSingle <=> Ev.ev = "single"))
+              [] nm = "best-of-restarts" -> Ev.ev = "multi" /\ ~EvIsSingle /\ ~BestOf(Ev)
+              [] nm = "budget-monotone" -> Ev.ev = "multi" /\ ~EvIsSingle /\ Len(prevIn) >= EvR /\ ~BudgetMonotone(Ev)
+              [] nm = "lloyd-step" -> /\ Ev.ev = "single" /\ EvIsSingle /\ Determ /\ NextBudget
+                                      /\ LET old == IF EvR = 1 THEN singles ELSE prevSingles IN
+                                         Len(old) >= EvR /\ ~StepNear(old[EvR].cen, Ev.cen)}>>
 
 -----------------------------------------------------------------------------
 TEnd ==
   /\ HasEv("end")
   /\ ei = Len(Case.ev)
   /\ Case.kind = "traj" => tt = Len(In.ms)
-  /\ Case.kind = "restart" => Len(Case.ev) = 2 * In.runs + 1
+  /\ Case.kind = "restart" => Len(Case.ev) = 2 * In.runs * Len(In.maxits) + 1
   /\ IF used = {} THEN Ok(Case.id) ELSE OkDev(Case.id, used)
   /\ ei' = ei + 1
-  /\ UNCHANGED <<cs, tt, cur, curTab, prevTab, lastA, stopped, ptr, ikeyPrev, sCounts, used, mvars>>
+  /\ UNCHANGED <<cs, tt, cur, curTab, prevTab, lastA, stopped, ptr, rvars, used, mvars>>
 
 Stuck ==
   /\ ei <= Len(Case.ev)
@@ -336,7 +397,7 @@ Stuck ==
                      ELSE IF Ev.ev \in {"single", "multi"} /\ Case.kind = "restart" THEN RestartDiag
                      ELSE <<"unexplained event">>>>)
   /\ ei' = Len(Case.ev) + 2
-  /\ UNCHANGED <<cs, tt, cur, curTab, prevTab, lastA, stopped, ptr, ikeyPrev, sCounts, used, mvars>>
+  /\ UNCHANGED <<cs, tt, cur, curTab, prevTab, lastA, stopped, ptr, rvars, used, mvars>>
 
 \* the acceptance pass runs without Stuck (its ENABLED would evaluate every action twice); rejected
 \* cases are re-run with TraceNext to obtain the FAIL diagnostics
